@@ -362,12 +362,29 @@ def arithC (op : ArithOp) (a b : PVal) : Except Err PVal :=
     | .add, .bytes x, .bytes y => .ok (.bytes (x ++ y))
     | .add, .list x, .list y => .ok (.list (x ++ y))
     | .add, .tuple x, .tuple y => .ok (.tuple (x ++ y))
-    | .mul, .str x, .int n => if n < 1000 then .ok (.str (String.join (repeatList [x] n.toNat))) else .error .unmodelled
-    | .mul, .int n, .str x => if n < 1000 then .ok (.str (String.join (repeatList [x] n.toNat))) else .error .unmodelled
-    | .mul, .list x, .int n => if n < 1000 then .ok (.list (repeatList x n.toNat)) else .error .unmodelled
-    | .mul, .int n, .list x => if n < 1000 then .ok (.list (repeatList x n.toNat)) else .error .unmodelled
-    | .mul, .tuple x, .int n => if n < 1000 then .ok (.tuple (repeatList x n.toNat)) else .error .unmodelled
-    | .mul, .int n, .tuple x => if n < 1000 then .ok (.tuple (repeatList x n.toNat)) else .error .unmodelled
+    | .mul, x, y =>
+      let rep (seq : PVal) (n : Int) : Except Err PVal :=
+        if n ≥ 1000 then .error .unmodelled
+        else match seq with
+          | .str v => .ok (.str (String.join (repeatList [v] n.toNat)))
+          | .bytes v => .ok (.bytes (repeatList v n.toNat))
+          | .list v => .ok (.list (repeatList v n.toNat))
+          | .tuple v => .ok (.tuple (repeatList v n.toNat))
+          | _ => te
+      let asInt (v : PVal) : Option Int := match v with
+        | .int n => some n | .bool b => some (if b then 1 else 0) | _ => none
+      let isSeq (v : PVal) : Bool := match v with
+        | .str _ => true | .bytes _ => true | .list _ => true | .tuple _ => true | _ => false
+      (match isSeq x, asInt y, asInt x, isSeq y with
+       | true, some n, _, _ => rep x n
+       | _, _, some n, true => rep y n
+       | _, _, _, _ =>
+         match x, y with
+         | .fval _ _, _ => .error .unmodelled
+         | _, .fval _ _ => .error .unmodelled
+         | .strset _, _ => .error .unmodelled
+         | _, .strset _ => .error .unmodelled
+         | _, _ => te)
     | .mod, .str _, _ => .error .unmodelled
     | .mod, .bytes _, _ => .error .unmodelled
     | _, .fval _ _, _ => .error .unmodelled
